@@ -56,7 +56,11 @@ def check_read_file(ctx, prop, cls, content, args=(), read_arg=None, encoding="u
         raw = content if isinstance(content, bytes) else content.encode(encoding)
         if crlf is None:
             crlf = isinstance(content, str) and (ctx.cur_k or 0) % 4 == 2
-        if crlf:
+        if crlf is True and isinstance(content, str) and (ctx.cur_k or 0) % 8 == 6:
+            crlf = "cr"  # classic Mac OS line ends: text-mode reading treats a bare \r as a line end too
+        if crlf == "cr":
+            raw = raw.replace(b"\r\n", b"\n").replace(b"\n", b"\r")
+        elif crlf:
             raw = raw.replace(b"\r\n", b"\n").replace(b"\n", b"\r\n")
         if bom:
             raw = b"\xef\xbb\xbf" + raw
@@ -71,13 +75,13 @@ def check_read_file(ctx, prop, cls, content, args=(), read_arg=None, encoding="u
             b = cls.read_file(path, *args)
         except Exception as e:
             return ctx.violate(prop, mon, "raises", f"{cls.__name__}.read_file raised {type(e).__name__}: {e} although read() of the same content succeeded",
-                               dict(tb=core.short_tb(e), bom=bom), dict(cls=cls.__name__, byte_order_mark=bool(bom), crlf=bool(crlf)))
+                               dict(tb=core.short_tb(e), bom=bom), dict(cls=cls.__name__, byte_order_mark=bool(bom), crlf=str(crlf)))
         with ctx.quiet():
             diff = diff_snapshots(snapshot(a), snapshot(b))
         if diff:
-            return ctx.violate(prop, mon, "differs_from_read", f"{cls.__name__}.read_file gives a different chart than read() of the same content: {diff}", dict(diff=diff, bom=bom), dict(cls=cls.__name__, byte_order_mark=bool(bom), crlf=bool(crlf)))
+            return ctx.violate(prop, mon, "differs_from_read", f"{cls.__name__}.read_file gives a different chart than read() of the same content: {diff}", dict(diff=diff, bom=bom), dict(cls=cls.__name__, byte_order_mark=bool(bom), crlf=str(crlf)))
         ctx.held(mon, cls.__name__)
-        ctx.state("fileio.read_file.case", (cls.__name__, bool(bom), bool(crlf)))
+        ctx.state("fileio.read_file.case", (cls.__name__, bool(bom), str(crlf)))
     finally:
         shutil.rmtree(d, ignore_errors=True)
 
